@@ -2,8 +2,8 @@ import InfluxQL.Model.SetTimeRange
 import InfluxQL.Model.CondSpec
 /-
 Declarative side of C18: the non-time part of a condition, the class of conditions the theorems
-cover (`strClass`), node count, and the explicit print → parse hypothesis under which the
-theorems about `setTimeRange` are stated.
+cover (`strClass`), node count, the window hypothesis, and — for comparison only — the text route
+`SetTimeRange` took before it built its condition as a tree (`textRoute`).
 -/
 namespace InfluxQL
 open Gen
@@ -57,38 +57,60 @@ mutual
     | a :: rest => a.size + sizeArgs rest
 end
 
-/-- The rewritten condition as it is grouped before ` AND <window>` is appended: inside a
-parenthesis node exactly when its top node is an `OR`. This is the tree whose print is
-`rewrittenText` (`rewrittenText_eq_print` in Lemmas/SetTimeRange.lean). Its top node is never an `OR`. -/
-def groupForAnd (e : Expr) : Expr := if topIsOr e then .paren e else e
-
 /-- One more node when the parentheses are added. -/
 def parenCost (tbl : List (Char × Char)) (c : Expr) : Nat :=
   if topIsOr (rewriteNoTime tbl c) then 1 else 0
 
-/-- The tree the text `SetTimeRange` prints was printed from: the (grouped) rewritten condition
-conjoined with the two bounds. -/
-def expectedTree (tbl : List (Char × Char)) (c : Expr) (w : Window) : Expr :=
-  .binary .AND (.binary .AND (groupForAnd (rewriteNoTime tbl c)) (geBound w.start)) (ltBound w.stop)
-
-/-- **Print → parse hypothesis** (what C02/C03 would provide for this fragment): the text
-`<grouped rewritten condition> AND time >= '…' AND time < '…'` parses to the tree it is the print
-of. Since the fix of C18-top-level-or-captures-the-window the left operand is never an
-unparenthesised `OR`, so nothing about the top operator of the condition is assumed any more: the
-hypothesis is the plain round trip `parse (print T) = T` on `T = expectedTree`, and it holds for a
-top-level `OR` as for any other condition (`C18.top_level_or_keeps_window` checks one in the
-kernel). It can only fail where printing itself loses grouping (C02/C03 finding: `n % -a`). -/
-def RT (tbl : List (Char × Char)) (c : Expr) (w : Window) : Prop :=
-  parseExprText (setTimeRangeText tbl (some c) w) [] tbl = .ok (expectedTree tbl c w)
-
-/-- What `setTimeRange` computes when `RT` holds. -/
+/-- The condition after `SetTimeRange` on a statement with condition `c`: `Reduce(·, nil)` of the tree
+`(<rewritten, grouped c> AND time >= start) AND time < end`. `setTimeRange … (some c) w = .ok` of
+this, by definition, for every expression `c` whatsoever (`C18.setTimeRange_total`). -/
 def stepSpec (fa : FloatArith) (tbl : List (Char × Char)) (c : Expr) (w : Window) : Expr :=
-  creduce (nilRCtx fa) (expectedTree tbl c w)
+  CReduce (nilRCtx fa) (setTimeRangeTree tbl (some c) w)
 
-/-- `RT` along a sequence of windows. -/
-def RTSeq (fa : FloatArith) (tbl : List (Char × Char)) : Expr → List Window → Prop
-  | _, [] => True
-  | c, w :: ws => RT tbl c w ∧ RTSeq fa tbl (stepSpec fa tbl c w) ws
+mutual
+  /-- No binary node anywhere in the expression (call arguments included) has a reference to time as
+  an operand: nothing for `rewriteNoTime` to replace. Any expression otherwise — arithmetic with
+  negated operands, time literals, … -/
+  def noTimeBound (tbl : List (Char × Char)) : Expr → Bool
+    | .binary _ l r => !isTimeRef tbl l && !isTimeRef tbl r && noTimeBound tbl l && noTimeBound tbl r
+    | .paren e => noTimeBound tbl e
+    | .call _ args => noTimeBoundArgs tbl args
+    | _ => true
+  def noTimeBoundArgs (tbl : List (Char × Char)) : List Expr → Bool
+    | [] => true
+    | a :: rest => noTimeBound tbl a && noTimeBoundArgs tbl rest
+end
+
+/-! ### The text route (the implementation before the tree-building fix; comparison only)
+
+`SetTimeRange` used to print the rewritten condition, append ` AND time >= '…' AND time < '…'` with
+`fmt.Sprintf`, and run the parser on the text. Nothing in the model of the current code uses these
+definitions; they state what the old code did so that the two routes can be compared
+(`C18.text_route_printed_the_tree`, `C18.text_route_agrees_when_round_trip`, and the two witnesses
+where the old route changed the condition). -/
+
+def boundsText (w : Window) : Str :=
+  ['t', 'i', 'm', 'e', ' ', '>', '=', ' ', '\''] ++ formatRFC3339Nano w.start ++
+  ['\'', ' ', 'A', 'N', 'D', ' ', 't', 'i', 'm', 'e', ' ', '<', ' ', '\''] ++ formatRFC3339Nano w.stop ++ ['\'']
+
+/-- The string the old `rewriteWithoutTimeDimensions` returned: the rewritten condition printed, in
+parentheses exactly when its top node is an `OR` (`"(" + n.String() + ")"`). -/
+def rewrittenText (tbl : List (Char × Char)) (c : Expr) : Str :=
+  let n := rewriteNoTime tbl c
+  if topIsOr n then ['('] ++ n.print ++ [')'] else n.print
+
+/-- The text the old code handed to the parser. -/
+def setTimeRangeText (tbl : List (Char × Char)) (cond : Option Expr) (w : Window) : Str :=
+  match cond with
+  | none => boundsText w
+  | some c => rewrittenText tbl c ++ [' ', 'A', 'N', 'D', ' '] ++ boundsText w
+
+/-- The old `SetTimeRange`: parse the text, then `Reduce`; the parse error otherwise. -/
+def textRoute (fa : FloatArith) (tbl : List (Char × Char)) (cond : Option Expr) (w : Window) :
+    Except Fail Expr :=
+  match parseExprText (setTimeRangeText tbl cond w) [] tbl with
+  | .error f => .error f
+  | .ok e => .ok (CReduce (nilRCtx fa) e)
 
 /-- **Window hypothesis**: the two printed instants read back as the instants they were printed
 from (a property of `Format(RFC3339Nano)` / `ParseInLocation`, checked by `decide` for concrete
